@@ -540,6 +540,32 @@ def p2_confirmed_guards(F, r):
                "the reader's parse_time_window asserts `len == 2` — a crash instead of an error code", F.loc(g))
 
 
+SHORT_CIRCUIT = ("try_fold", "try_for_each", "find", "find_map", "position", "any", "all", "take_while", "map_while", "take", "nth", "next", "last")
+
+
+def v5_aggregator_reports_all(F, r):
+    """every rule group reports ALL the codes its rules produced: `combine_error_results` walks the whole slice of results — no short-circuiting adapter and no
+    `collect::<Result<..>>()` (which stops at the first `Err`): a document breaking two rules of one group must yield both codes"""
+    fid = "vrp_pragmatic::utils::collections::combine_error_results"
+    if fid not in F.fns:
+        raise AnchorError(fid)
+    bad = None
+    for g in F.family(fid):
+        fn = F.fns[g]
+        for bi, t in mir.calls(fn):
+            c = t["callee"]
+            last = c.split("::")[-1]
+            if c.startswith("core::iter::traits::iterator::Iterator::") and last in SHORT_CIRCUIT:
+                bad = (g, t, f"`{last}` stops at the first hit")
+            if c.endswith("Iterator::collect") and not t["dest"]["p"] and (fn["locals"][t["dest"]["l"]] or "").startswith(("core::result::Result<", "core::option::Option<")):
+                bad = (g, t, "`collect` into a Result stops at the first `Err`")
+    if bad:
+        r.fail("combine_error_results", f"the aggregation short-circuits ({bad[2]}): a rule group reports only its first failing rule — the reported codes are not the full set of "
+               "documented rules the input breaks", F.loc(bad[0], bad[1]["ln"]))
+    else:
+        r.ok("combine_error_results", "all results are walked; every error is kept")
+
+
 def run(ctx):
     ctx.explanation = (
         "Structural clauses of `validation is total and matches its documented rules`: validation dominates (through the Ok edge of `?`) every reader "
@@ -558,3 +584,4 @@ def run(ctx):
     ctx.run("C10-E1", "every validation rule has a single accepting exit (reasoned exceptions)", e1_single_accept_exit, floor=35)
     ctx.run("C10-R1", "relation rules select the vehicle shift by the relation's shift index", r1_relation_shift, floor=2)
     ctx.run("C10-V4", "no Result produced in validation is dropped", v4_no_dropped_results, floor=1)
+    ctx.run("C10-V5", "the error aggregator keeps every error of a rule group (no short-circuit)", v5_aggregator_reports_all, floor=1)
